@@ -50,6 +50,7 @@ func main() {
 	seed := flag.Int("seed", 0, "solver seed")
 	keep := flag.Bool("keep", false, "keep all query files")
 	dump := flag.String("dump", "", "print SSA of this function and exit")
+	tier2 := flag.Bool("tier2", false, "package is generated tier-2 code (attribution of safety/frame obligations)")
 	flag.Parse()
 
 	t0 := time.Now()
@@ -150,6 +151,33 @@ func main() {
 	} else {
 		_ = os.MkdirAll(wdir, 0o755)
 	}
+	// attribute obligations to properties; with -props only the relevant ones are solved
+	for _, vc := range vcs {
+		var fprops []string
+		if vc.contract != nil {
+			for p := range vc.contract.Props {
+				fprops = append(fprops, p)
+			}
+			sort.Strings(fprops)
+		}
+		var keepObls []*Obligation
+		for _, o := range vc.obls {
+			o.Eff = effectiveProps(o, fprops, *tier2)
+			if len(wantProps) > 0 {
+				hit := false
+				for _, p := range o.Eff {
+					if wantProps[p] {
+						hit = true
+					}
+				}
+				if !hit {
+					continue
+				}
+			}
+			keepObls = append(keepObls, o)
+		}
+		vc.obls = keepObls
+	}
 	rep.Results = solveAll(vcs, wdir, *workers, *timeout, *seed, *keep)
 	for k, c := range eng.contracts.Funcs {
 		if !c.Used && !c.Extern {
@@ -187,4 +215,29 @@ func main() {
 	if nf+nu > 0 {
 		os.Exit(1)
 	}
+}
+
+
+// effectiveProps: the properties an obligation is attributed to. Tagged clauses carry their own
+// tags; untagged obligations (safety, frame, invariants, canaries) are attributed by kind.
+func effectiveProps(o *Obligation, fprops []string, tier2 bool) []string {
+	if len(o.Props) > 0 {
+		return o.Props
+	}
+	if tier2 {
+		switch o.Kind {
+		case "nil-deref", "bounds", "nil-map", "type-assert", "panic", "call-pre":
+			r := []string{"C06"}
+			if strings.HasSuffix(o.Func, "ToTerraform") {
+				r = append(r, "C03")
+			}
+			if strings.Contains(o.Func, "custom") {
+				r = append(r, "C17")
+			}
+			return r
+		case "frame", "frame-inv-entry", "frame-inv-preserved":
+			return []string{"C02"}
+		}
+	}
+	return fprops
 }
